@@ -88,7 +88,8 @@ class CallMixin:
             r = h(self, st, ("attr", recv, name), args, kwargs, frame, node)
             if r is not None:
                 return r
-        if isinstance(recv, Sym) and self.cfg.sym_classes.get(recv.tok) is None:
+        if isinstance(recv, Sym) and (self.sym_class(recv.tok) is None
+                                      or not self.cfg.sym_method_filter(self.sym_class(recv.tok), name)):
             for h in self.cfg.attr_hooks:
                 r = h(self, st, recv, name, site)
                 if r is not None:
@@ -170,6 +171,29 @@ class CallMixin:
         # anything else: a callable we cannot see (user callback / foreign method)
         return self.user_call(st, Sym(recv.tok + ("." + name,), recv.content_prov()), name, args, kwargs, frame, node)
 
+    def arg_summary(self, st, args, kwargs):
+        """((position/keyword, provenance...), ...) of the non-immutable arguments of an opaque call."""
+        out = []
+        from .exprs import content_prov_of
+        def one(name, v):
+            if isinstance(v, tuple):
+                v = v[1]
+            if isinstance(v, Ref) and isinstance(st.heap.get(v.addr), DictO):
+                o = st.heap[v.addr]
+                for k, x in o.items.items():
+                    one(f"{name}[{k if not isinstance(k, tuple) else '/'.join(map(str, k[1:]))}]", x)
+                if o.rest is not None:
+                    one(f"{name}[*]", o.rest)
+                return
+            p = prov_of(st, v)
+            if p - {IMM, CLS}:
+                out.append((str(name), vrepr(v)) + tuple(sorted(p)))
+        for i, v in enumerate(args):
+            one(i, v)
+        for k, v in kwargs.items():
+            one(k, v)
+        return tuple(out)
+
     def user_call(self, st, callee: V, label, args, kwargs, frame, node) -> List[Outcome]:
         site = self.site(frame, node)
         ctor = isinstance(callee, Sym) and callee.tok[-1] in getattr(self.cfg, "constructor_attrs", ())
@@ -178,7 +202,10 @@ class CallMixin:
         cname = vrepr(callee)
         while cname.endswith("/.__origin__"):
             cname = cname[: -len("/.__origin__")]
-        st.emit("U", cname, label, site)
+        if self.cfg.guard_pred:
+            st.emit("U", cname, label, self.arg_summary(st, args, kwargs), self.guards(st), site)
+        else:
+            st.emit("U", cname, label, self.arg_summary(st, args, kwargs), site)
         res = Sym(("call", "construct" if ctor else cname, site), {FRESH} if ctor else {USER},
                   tags={"nonsentinel"} if ctor else ())
         outs = []
@@ -374,7 +401,7 @@ class CallMixin:
             for o in outs:
                 with self.pinned(o.value):
                     self.gc(o.state)
-            merged = merge_states([(o.state, o.kind, o.value) for o in outs])
+            merged = merge_states([(o.state, o.kind, o.value) for o in outs], guard_pred=self.cfg.guard_pred)
             outs = [Outcome(k, s, v) for (s, k, v) in merged]
         return outs
 
